@@ -534,12 +534,17 @@ MODE_FLAGS = {"lo": ["1000", "1001", "1100", "1110", "1010", "1111"], "li": ["01
               "dry": ["0001"], "gen": ["0000"]}
 
 
-def execute(sb, flagsets, pythonpath):
-    """Run one configuration in all modes with snapshots in between.  Returns raw observations."""
+ALL_STEPS = (("lo", "lo"), ("li", "li"), ("lc", "lc"), ("dry", "dry"), ("gen", "gen"), ("lo2", "lo"), ("li2", "li"), ("dry2", "dry"), ("gen2", "gen"))
+
+
+def execute(sb, flagsets, pythonpath, skip=()):
+    """Run one configuration in all modes with snapshots in between.  Returns raw observations.  `skip`: steps over the
+    existing output that the quick tier leaves out for this configuration (alternating)."""
     obs = {}
     snap = fss.snapshot([sb.base])
-    for step, mode in (("lo", "lo"), ("li", "li"), ("lc", "lc"), ("dry", "dry"), ("gen", "gen"), ("lo2", "lo"), ("li2", "li"), ("dry2", "dry"),
-                       ("gen2", "gen")):
+    for step, mode in ALL_STEPS:
+        if step in skip:
+            continue
         if step == "gen2":
             # a history: the outputs of the first run are made writable (as `--file-mode 0o644` or a user would), then the
             # same real run again over the existing tree
@@ -656,8 +661,8 @@ def evaluate(ctx, sb, obs, model, stream):
                       "printed": [x.replace(base, "$SB") for x in split_list(lo["stdout"])][:6], "listed_not_created": rel(set(listed) - set(made)),
                       "created_not_listed": rel(set(made) - set(listed)), "cli": sb.cli_args(lo["flags"])})
         # listing over the existing output must print the same list again
-        lo2 = obs["lo2"]
-        if lo2["rc"] == 0 and sorted(set(sb.norm(x) for x in split_list(lo2["stdout"]))) != listed and lo["rc"] == 0:
+        lo2 = obs.get("lo2")
+        if lo2 is not None and lo2["rc"] == 0 and sorted(set(sb.norm(x) for x in split_list(lo2["stdout"]))) != listed and lo["rc"] == 0:
             ctx.fail({"kind": "list-outputs-depends-on-existing-output"}, "--list-outputs prints another list once the output exists",
                      {"cfg": ck, "before": rel(listed), "after": rel(sb.norm(x) for x in split_list(lo2["stdout"]))})
     # a second real run over the existing (now writable) outputs: the files it creates or rewrites are the listed ones
@@ -679,21 +684,21 @@ def evaluate(ctx, sb, obs, model, stream):
                  {"cfg": ck, "status": gen2["status"], "stderr": gen2["stderr_tail"][-300:]})
     # nothing but the list on stdout
     for step in ("lo", "li", "lo2", "li2"):
-        o = obs[step]
-        if o["rc"] == 0 and not list_format_ok(o["stdout"]):
+        o = obs.get(step)
+        if o is not None and o["rc"] == 0 and not list_format_ok(o["stdout"]):
             ctx.fail({"kind": "list-stdout-not-a-list", "mode": step.rstrip("2")},
                      "a listing mode writes something else than `<item>;<item>;…` to stdout",
                      {"cfg": ck, "step": step, "cli": sb.cli_args(o["flags"]), "stdout_head": o["stdout"][:300].replace(base, "$SB")})
     for step in ("li", "li2"):
-        o = obs[step]
-        if o["rc"] == 0:
+        o = obs.get(step)
+        if o is not None and o["rc"] == 0:
             ghosts = [x for x in split_list(o["stdout"]) if not os.path.exists(os.path.join(str(sb.cwd), x))]
             if ghosts:
                 ctx.fail({"kind": "list-inputs-names-nonexistent"}, "--list-inputs prints an item that is not an existing file or directory",
                          {"cfg": ck, "step": step, "items": [g[:200].replace(base, "$SB") for g in ghosts[:4]], "cli": sb.cli_args(o["flags"])})
     for step in ("lo", "li", "lc", "dry", "lo2", "li2", "dry2"):
-        o = obs[step]
-        if not o["diff"].empty:
+        o = obs.get(step)
+        if o is not None and not o["diff"].empty:
             ctx.fail({"kind": "side-effect", "mode": step.rstrip("2")},
                      f"{step}: a listing / dry-run invocation changed the file system",
                      {"cfg": ck, "step": step, "cli": sb.cli_args(o["flags"]), "diff": o["diff"].as_dict(relative_to=base)})
@@ -768,7 +773,8 @@ def run_stream(ctx, stream, cfgs, specs, drv, pythonpath, pkg_lang_dir, budget_s
     with concurrent.futures.ThreadPoolExecutor(WORKERS) as ex:
         futs = {}
         for j, (sb, fl) in enumerate(jobs):
-            futs[ex.submit(execute, sb, fl, pythonpath)] = j
+            skip = () if not ctx.quick else (("li2",) if j % 2 == 0 else ("lo2", "dry2"))
+            futs[ex.submit(execute, sb, fl, pythonpath, skip)] = j
         for fut in concurrent.futures.as_completed(futs):
             j = futs[fut]
             sb = jobs[j][0]
@@ -1145,6 +1151,34 @@ def evaluate_api(ctx, records, drv, pkg_lang_dir):
 # ---------------------------------------------------------------------------------------------------------------
 # streams
 # ---------------------------------------------------------------------------------------------------------------
+def argv_stream(ctx, drv):
+    """The command-line layer: real argparse parser + real ArgparseRunner (recording generators) vs Model/CliParse.lean."""
+    from . import cliparse_tie as ct
+    impl = ct.Impl()
+    argvs = [list(a) for a in ct.CORPUS] + ct.exhaustive(impl) + ct.random_argvs(ctx.rng, impl, 2500 if ctx.quick else 40000)
+    nsdir = ctx.scratch / "argv_ns"
+    nsdir.mkdir(exist_ok=True)
+    runnable = ct.runnable_argvs(ctx.rng, 250 if ctx.quick else 4000, str(nsdir))
+    ctx.extra.setdefault("domain", {})["argv_vectors"] = {"corpus": len(ct.CORPUS), "exhaustive_prefixes_and_forms": len(ct.exhaustive(impl)),
+                                                           "random": len(argvs) - len(ct.CORPUS) - len(ct.exhaustive(impl)), "runnable": len(runnable)}
+    if drv is None:
+        return
+    lines = ["parse " + " ".join(enc(a) for a in argv) for argv in argvs + runnable]
+    answers = drv.ask(lines, timeout=1200)
+    acc = ct.compare_parse(ctx, "argv", impl, argvs, answers[:len(argvs)])
+    acc_run = ct.compare_parse(ctx, "argv-runnable", impl, runnable, answers[len(argvs):])
+
+    def oracle(argv, args, p):
+        # the property on the implementation: with a listing / dry-run flag in the namespace no generator may be asked to write
+        listing = bool(args.list_outputs or args.list_inputs or args.list_configuration or args.dry_run)
+        for target, fn, kw in p.get("calls", []):
+            if fn == "generate_all" and listing and not kw.get("is_dryrun", False):
+                ctx.fail({"kind": "side-effect", "mode": "cli-flag-not-forwarded"},
+                         "a listing / dry-run command line reaches generate_all without is_dryrun",
+                         {"argv": argv, "call": [target, fn, {k: repr(v) for k, v in kw.items()}]})
+    ct.compare_plan(ctx, "argv-plan", impl, acc_run + acc[: (150 if ctx.quick else 3000)], oracle)
+
+
 def corpus_cfgs():
     out = []
     d = common.VERIF / "corpus" / "C08"
@@ -1172,8 +1206,16 @@ def run(ctx: common.Ctx):
         ctx.extra["translator"] = {"changed": tr["changed"], "rows": {r["name"]: {k: r[k] for k in ("serSupport", "typeSupport", "included")} for r in tr["rows"]}}
     except Exception as e:  # the source can no longer be expressed: tie broken
         ctx.broken.append({"kind": "translator", "error": repr(e)[:500]})
+    try:
+        from translate import cliargs
+        tr2 = cliargs.main(common.REPO)
+        ctx.extra.setdefault("translator", {})["cliargs"] = {"changed": tr2["changed"], "actions": tr2["actions"], "rejections": tr2["rejections"],
+                                                             "run_chain": tr2["chain"], "calls": tr2["calls"]}
+    except Exception as e:  # the parser / runner can no longer be expressed in the tables: tie broken
+        ctx.broken.append({"kind": "translator", "translator": "cliargs", "error": repr(e)[:500]})
     drivers = ctx.prove(["C08"], exes=["cli"])
     drv = drivers.get("cli")
+    argv_stream(ctx, drv)
     ctx.rule = ("one case = one nnvg subprocess (configuration x mode, or configuration x mutated input file); non-trivial = prints, creates or "
                 "fails; configurations: pairwise-covering (quick) / full grid (thorough) over language x generate-support x omit x "
                 "namespace-types x templates dir x support-templates dir x extension x stem x namespace x outdir style; distinct by "
@@ -1229,6 +1271,8 @@ def run(ctx: common.Ctx):
                 acfgs.append(c)
                 if not ctx.quick or (gs, omit) in (("only", 1), ("as-needed", 0)):
                     acfgs.append(dict(c, extra_args=["--pp-trim-trailing-whitespace"], ext=".inc"))
+    if ctx.quick:   # the decision-relevant corners; the thorough tier runs the whole product
+        acfgs = [c for c in acfgs if (c["gs"], c["omit"]) in (("as-needed", 0), ("only", 1), ("only", 0), ("never", 0), ("always", 0), ("as-needed", 1))]
     run_stream(ctx, "copied-resource", acfgs, specs, drv, aug, aug / "nunavut" / "lang")
 
     # ---- stream 3: mutation search ------------------------------------------------------------------------------
@@ -1284,7 +1328,7 @@ def replay(ctx, path):
     base = str(sb.base)
     listed = sorted(os.path.relpath(sb.norm(x), base) for x in split_list(obs["lo"]["stdout"]))
     made = sorted(os.path.relpath(p, base) for p in obs["gen"]["created_files"])
-    side = {s: obs[s]["diff"].as_dict(relative_to=base) for s in ("lo", "li", "lc", "dry", "lo2", "li2", "dry2") if not obs[s]["diff"].empty}
+    side = {s: obs[s]["diff"].as_dict(relative_to=base) for s in ("lo", "li", "lc", "dry", "lo2", "li2", "dry2") if s in obs and not obs[s]["diff"].empty}
     before = len(ctx.failures)
     evaluate(ctx, sb, obs, {}, "replay")
     found = [f for f in ctx.failures[before:]]
